@@ -75,8 +75,28 @@ def resolve_unwindset(h, log):
     binary = max(cands, key=os.path.getmtime)
     out = subprocess.run(["cbmc", "--show-loops", binary], capture_output=True, text=True, timeout=600).stdout
     loops = re.findall(r"^Loop (\S+)\.(\d+):\n\s+file .*? function (.*)$", out, re.M)
+    try:
+        pairs = _match_unwindset(h["unwindset"], loops)
+    except ValueError:
+        # `@unwindset_fallback: <file regex>=<n>`: used only when the precise
+        # entries no longer match (the function was restructured): every loop
+        # located in a matching source file gets the uniform bound n
+        fb = h.get("unwindset_fallback")
+        m = re.match(r"(.+)=\s*(\d+)$", fb.strip()) if fb else None
+        if not m:
+            raise
+        floops = re.findall(r"^Loop (\S+\.\d+):\n\s+file (\S+) ", out, re.M)
+        pairs = [f"{lid}:{m.group(2)}" for lid, path in floops if re.search(m.group(1).strip(), path)]
+        if not pairs:
+            raise
+        h["_unwindset_note"] = "precise entries stale; fallback bound applied to all loops of " + m.group(1).strip()
+    h["_unwindset"] = ",".join(pairs)
+    return h["_unwindset"]
+
+
+def _match_unwindset(spec, loops):
     pairs = []
-    for ent in h["unwindset"].split(";"):
+    for ent in spec.split(";"):
         ent = ent.strip()
         if not ent:
             continue
@@ -88,8 +108,7 @@ def resolve_unwindset(h, log):
         if not hit:
             raise ValueError(f"@unwindset entry {ent!r} matches no loop of the harness binary")
         pairs += [f"{x}:{n}" for x in hit]
-    h["_unwindset"] = ",".join(pairs)
-    return h["_unwindset"]
+    return pairs
 
 
 def run(h, log, extra=None, timeout=None, mem_gb=10):
